@@ -463,12 +463,23 @@ def finish(module, tier, seed, results, errors, wall) -> int:
                 extra[k] = extra.get(k, 0) + v
             else:
                 extra.setdefault(k, v)
-    # interleave samples from the shards
-    pools = [list(r["samples"]) for r in results]
-    while any(pools) and len(samples) < 12:
-        for p in pools:
-            if p and len(samples) < 12:
-                samples.append(p.pop(0))
+    # samples: non-trivial cases first, as many different class combinations as possible
+    allsamples = [x for r in results for x in r["samples"]]
+    allsamples.sort(key=lambda x: (not x.get("nontrivial"), -len(x.get("classes", []))))
+    seen_keys = set()
+    for x in allsamples:
+        key = (x.get("part"), tuple(sorted(x.get("classes", []))))
+        if key in seen_keys:
+            continue
+        seen_keys.add(key)
+        samples.append(x)
+        if len(samples) >= 12:
+            break
+    for x in allsamples:
+        if len(samples) >= 6:
+            break
+        if x not in samples:
+            samples.append(x)
 
     # generator regressions are harness errors
     if not violations:
